@@ -280,7 +280,19 @@ def analyse(P, R, key, cap_attr, thr_attr, mstep_names, rule="LOOP"):
         inc_before = cfg.reach_avoiding(F.inc, vstmt, {loop}) and not cfg.reach_avoiding(vstmt, F.inc, {loop})
     # value of step at the test in pass k: init + k (increment first) or init + k - 1; for-range: init + k - 1
     base = init + (0 if (F.inc is not None and inc_before) else -1)
-    if step_guard is None:
+    none_init = bool(init_vals) and all(isinstance(v, ast.Constant) and v.value is None for v in init_vals)
+    none_guard = False
+    if step_guard is None and none_init:
+        # `prev = None` before the loop and the test guarded by `prev is not None`: skipped on the first pass, where prev still is
+        # the initial None, run from the second pass on (the criterion the M-step returns is a number, never None)
+        from ..cfg import enclosing_guards as _eg_l2
+        for test_, pol_ in _eg_l2(du.stmt_of(c)) + _eg_l2(brk):
+            for x_ in ast.walk(test_):
+                if isinstance(x_, ast.Compare) and len(x_.ops) == 1 and isinstance(x_.ops[0], ast.IsNot) and isinstance(x_.left, ast.Name) and x_.left.id == prev and isinstance(x_.comparators[0], ast.Constant) and x_.comparators[0].value is None and pol_:
+                    none_guard = True
+    if step_guard is None and none_guard:
+        R.ok(rule + ".L2-second", key, f"`{prev} is not None` guards the test, `{cur} = None` before the loop", "test first reachable on the second pass", brk.lineno)
+    elif step_guard is None:
         if inf_init:
             R.ok(rule + ".L2-second", key, "no step guard, initial previous criterion is inf", "first comparison is nan <= thr (false): behaviour unchanged")
         else:
